@@ -1263,3 +1263,67 @@ def dist_history(g, prog, ncalls=4):
                 hist.append({"op": "set", "o": "o0", "path": [fd["n"]], "v": r.choice([0, 1, 2, 3, 5]) if fd["n"].startswith("w") else g.rand_val(fd["w"], fd["s"])})
         hist.append({"op": "randomize", "o": "o0"})
     return hist
+
+
+# ---------------------------------------------------------------------------
+# solve_order (C20)
+# ---------------------------------------------------------------------------
+
+def order_pair(rng):
+    """Two programs that differ only in how many values of the later variable(s) accompany each value of the
+    earlier one: same own-constraints on a, couplings of different multiplicity but (by construction) every value
+    of a that satisfies a's own constraints stays extendable in both."""
+    r = rng
+    wa = r.choice([1, 2, 2])
+    wb = r.choice([2, 3])
+    chain = r.random() < 0.3
+    fields = [{"n": "a", "k": "int", "w": wa, "s": False, "r": True},
+              {"n": "b", "k": "int", "w": wb, "s": False, "r": True}]
+    if chain:
+        fields.append({"n": "c", "k": "int", "w": 2, "s": False, "r": True})
+    extra_a = r.random() < 0.3
+    if extra_a:
+        fields.append({"n": "x", "k": "int", "w": 1, "s": False, "r": True})
+    amax = (1 << wa) - 1
+    bmax = (1 << wb) - 1
+    own = []
+    c = r.random()
+    if c < 0.25 and wa >= 2:
+        own.append(["e", ["b", "!=", ["f", ["a"]], ["c", r.randint(0, amax)]]])
+    elif c < 0.40 and wa >= 2:
+        own.append(["e", ["b", r.choice(["<", "<="]), ["f", ["a"]], ["c", r.randint(1, amax)]]])
+    elif c < 0.5 and wa >= 2:
+        own.append(["e", ["in", ["f", ["a"]], [["c", v] for v in sorted(r.sample(range(amax + 1), r.randint(2, amax)))]]])
+
+    def coupling():
+        k = r.choice(["le", "ge", "ifeq", "imp", "sum", "ne"])
+        if k == "le":
+            return [["e", ["b", "<=", ["f", ["b"]], ["f", ["a"]]]]]
+        if k == "ge":
+            return [["e", ["b", ">=", ["f", ["b"]], ["f", ["a"]]]]]
+        if k == "ne":
+            return [["e", ["b", "!=", ["f", ["b"]], ["f", ["a"]]]]]
+        if k == "ifeq":
+            v = r.randint(0, amax)
+            return [["if", [[["b", "==", ["f", ["a"]], ["c", v]], [["e", ["b", "==", ["f", ["b"]], ["c", r.randint(0, bmax)]]]]]],
+                     [["e", ["b", r.choice(["<", ">="]), ["f", ["b"]], ["c", r.randint(1, bmax)]]]] if r.random() < 0.5 else None]]
+        if k == "imp":
+            v = r.randint(0, amax)
+            return [["imp", ["b", "==", ["f", ["a"]], ["c", v]],
+                     [["e", ["in", ["f", ["b"]], [["c", x] for x in sorted(r.sample(range(bmax + 1), r.randint(1, 2)))]]]]]]
+        return [["e", ["b", "<=", ["b", "+", ["f", ["a"]], ["f", ["b"]]], ["u", bmax, wb + 1]]]]
+    progs = []
+    for which in range(2):
+        st = [copy.deepcopy(s) for s in own] + coupling()
+        if chain:
+            st += [["e", ["b", r.choice(["<=", "!=", ">="]), ["f", ["c"]], ["f", ["b"]]]]]
+        order = []
+        if extra_a and r.random() < 0.5:
+            order.append(["so", [["a"], ["x"]], [["b"]]])
+        else:
+            order.append(["so", [["a"]], [["b"]]])
+        if chain:
+            order.append(["so", [["b"]], [["c"]]])
+        blocks = [{"n": "c0", "st": st + order}] if r.random() < 0.6 else [{"n": "c0", "st": st}, {"n": "ord", "st": order}]
+        progs.append({"enums": {}, "classes": {"C0": {"base": None, "fields": copy.deepcopy(fields), "blocks": blocks}}, "top": "C0"})
+    return progs
